@@ -318,6 +318,32 @@ def run_qcase(case):
                 matches.append(r)
                 return ON("result", [mref(cx, r)])
             out.append(guarded("next", th))
+        elif k == 'drain':
+            _, ki, cap, extra = c
+            if ki >= len(iters):
+                out.append(SKIP)
+                continue
+            it, vals = iters[ki]
+            obs = []
+
+            def one():
+                more = [False]
+
+                def th():
+                    r = next(it)
+                    more[0] = True
+                    if vals:
+                        return ON("value", [lval(cx, r)])
+                    matches.append(r)
+                    return ON("result", [mref(cx, r)])
+                obs.append(guarded("next", th))
+                return more[0]
+            n = 0
+            while n < cap and one():
+                n += 1
+            for _ in range(extra):
+                one()
+            out.append(ON("drain", obs))
         elif k == 'get_match':
             _, s, p, must, tr = c
             d = src(s)
@@ -383,6 +409,8 @@ def run_qcase(case):
             except Exception as e:  # noqa
                 out.append(ON("roundtrip", [ON("raise", [oexn(e)])]))
             cx.drain()
+        elif k == 'snap':
+            out.append(ON("snap", [snapshot(cx, doc)]))
         elif k == 'describe':
             i = c[1]
             if i >= len(matches):
